@@ -7,7 +7,10 @@ EXTENDS Extract, TLC
 CONSTANTS Design, MaxEntries
 \* <<".", "a">> is a second spelling of a (entries are paired with metadata by name, so a link and a file
 \* at one location need two spellings); the last target is a dangling link to a file outside
-Paths == { <<"a">>, <<".", "a">>, <<"b">>, <<"a", "b">>, <<"..", "out", "victim">>, <<"a", "..", "..", "out", "x">> }
+\* <<"..", "fresh", "x">> needs a directory that does not exist yet outside; <<"a", "sub", "x">> lies two levels below a
+\* possible link
+Paths == { <<"a">>, <<".", "a">>, <<"b">>, <<"a", "b">>, <<"..", "out", "victim">>, <<"a", "..", "..", "out", "x">>,
+           <<"..", "fresh", "x">>, <<"a", "sub", "x">> }
 Targets == { [abs |-> FALSE, comps |-> <<"..", "out">>], [abs |-> TRUE, comps |-> <<"out">>], [abs |-> FALSE, comps |-> <<"b">>],
              [abs |-> FALSE, comps |-> <<"..", "out", "new">>], [abs |-> TRUE, comps |-> <<"out", "new2">>] }
 Entries == { [comps |-> p, kind |-> "file", data |-> "new", target |-> [abs |-> FALSE, comps |-> <<>>]] : p \in Paths }
